@@ -53,6 +53,304 @@ def group(ctx, name: str):
         ctx.errors.append(f"[{name}] analyser slip: {type(e).__name__}: {e}")
 
 
+# ---------------------------------------------------------------------------------------------
+# interprocedural view: private helpers inlined into the analysed function
+# ---------------------------------------------------------------------------------------------
+
+# functions the rules identify by name at their call sites: never inlined
+ANCHORS = {"_runCallbacks", "_startRunCallbacks", "_continuation", "_cbDeferred", "_parseDeferredListResult", "_failthru",
+           "_inlineCallbacks", "_gotResultInlineCallbacks", "_cancellableInlineCallbacks", "_addCancelCallbackToDeferred",
+           "_handleCancelInlineCallbacks", "_getDebugTracebacks", "__init__"}
+
+
+class _NoInline(Exception):
+    pass
+
+
+def clone(node):
+    """deep copy of an AST that does not follow the `_parent` back-links the source model adds"""
+    if isinstance(node, list):
+        return [clone(x) for x in node]
+    if not isinstance(node, ast.AST):
+        return node
+    new = type(node)()
+    for f in node._fields:
+        if hasattr(node, f):
+            setattr(new, f, clone(getattr(node, f)))
+    for a in ("lineno", "col_offset", "end_lineno", "end_col_offset"):
+        if hasattr(node, a):
+            setattr(new, a, getattr(node, a))
+    return new
+
+
+def _simple_expr(e) -> bool:
+    while isinstance(e, ast.Attribute):
+        e = e.value
+    return isinstance(e, (ast.Name, ast.Constant))
+
+
+def _terminates(stmts) -> bool:
+    if not stmts:
+        return False
+    last = stmts[-1]
+    if isinstance(last, (ast.Return, ast.Raise)):
+        return True
+    if isinstance(last, ast.If):
+        return _terminates(last.body) and _terminates(last.orelse)
+    return False
+
+
+def _elim_returns(stmts, target):
+    """Rewrite a helper body so that it falls off its end instead of returning: `return v` in tail position becomes
+    `target = v` (or disappears); `if c: ...return` followed by more code becomes if/else.  Returns inside loops / try /
+    with cannot be rewritten (-> _NoInline)."""
+    out = []
+    for i, st in enumerate(stmts):
+        if isinstance(st, ast.Return):
+            if target is not None:
+                out.append(ast.copy_location(ast.Assign(targets=[target], value=st.value or ast.Constant(value=None)), st))
+            elif st.value is not None and not _simple_expr(st.value):
+                out.append(ast.copy_location(ast.Expr(value=st.value), st))
+            return out or [ast.copy_location(ast.Pass(), st)]
+        if isinstance(st, ast.If):
+            rest = stmts[i + 1:]
+            body_t, else_t = _terminates(st.body), _terminates(st.orelse)
+            has_ret = any(isinstance(x, ast.Return) for x in ast.walk(st))
+            if has_ret and rest and (body_t or else_t) and not (body_t and else_t):
+                nb = _elim_returns(st.body + ([] if body_t else rest), target)
+                ne = _elim_returns((st.orelse or []) + ([] if else_t else rest), target)
+                out.append(ast.copy_location(ast.If(test=st.test, body=nb or [ast.Pass()], orelse=ne), st))
+                return out
+            nb = _elim_returns(st.body, target)
+            ne = _elim_returns(st.orelse, target) if st.orelse else []
+            out.append(ast.copy_location(ast.If(test=st.test, body=nb or [ast.Pass()], orelse=ne), st))
+            if body_t and else_t:
+                return out
+            if has_ret and not rest:
+                continue
+            if has_ret:
+                raise _NoInline("return in a non-tail branch")
+            continue
+        if any(isinstance(x, ast.Return) for x in ast.walk(st)) and not isinstance(st, (ast.FunctionDef, ast.AsyncFunctionDef, ast.Lambda)):
+            raise _NoInline("return inside a loop / try / with")
+        out.append(st)
+    return out
+
+
+class _Subst(ast.NodeTransformer):
+    def __init__(self, mapping, rename):
+        self.mapping, self.rename = mapping, rename
+
+    def visit_Name(self, node):
+        if node.id in self.mapping and isinstance(node.ctx, ast.Load):
+            return ast.copy_location(clone(self.mapping[node.id]), node)
+        if node.id in self.rename:
+            return ast.copy_location(ast.Name(id=self.rename[node.id], ctx=node.ctx), node)
+        return node
+
+
+class Inliner:
+    """Replaces calls to private helpers (methods of the same class family called on a simple receiver, or module-level
+    `_functions`) by their bodies, so that every path / dominance / effects question is asked on the combined code."""
+
+    def __init__(self, mod, max_depth: int = 3):
+        self.mod = mod
+        self.max_depth = max_depth
+        self.count = 0
+        self.inlined: List[str] = []
+        self.methods: Dict[str, List[ast.AST]] = {}
+        for c in mod.classes():
+            for st in c.body:
+                if isinstance(st, ast.FunctionDef) and not any((dotted(d) or "").split(".")[-1] in ("overload", "classmethod", "staticmethod", "property")
+                                                               for d in st.decorator_list):
+                    self.methods.setdefault(st.name, []).append(st)
+        self.functions = {st.name: st for st in mod.tree.body if isinstance(st, ast.FunctionDef)}
+
+    def _callee(self, call: ast.Call):
+        f = call.func
+        if isinstance(f, ast.Attribute) and f.attr.startswith("_") and f.attr not in ANCHORS and not f.attr.startswith("__") \
+                and _simple_expr(f.value) and len(self.methods.get(f.attr, [])) == 1:
+            return self.methods[f.attr][0], f.value
+        if isinstance(f, ast.Name) and f.id.startswith("_") and f.id not in ANCHORS and f.id in self.functions:
+            return self.functions[f.id], None
+        return None, None
+
+    def _expand(self, call: ast.Call, target, depth):
+        """statements replacing `target = call` / `call` ; raises _NoInline"""
+        helper, recv = self._callee(call)
+        if helper is None or depth >= self.max_depth:
+            raise _NoInline("not a private helper")
+        a = helper.args
+        if a.vararg or a.kwarg or a.kwonlyargs or any(isinstance(x, ast.Starred) for x in call.args) or any(k.arg is None for k in call.keywords):
+            raise _NoInline("variadic")
+        if any(isinstance(x, (ast.FunctionDef, ast.AsyncFunctionDef, ast.Lambda, ast.Yield, ast.YieldFrom, ast.Await, ast.Global, ast.Nonlocal))
+               for st in helper.body for x in ast.walk(st)):
+            raise _NoInline("nested scope / generator")
+        ps = [x.arg for x in list(a.posonlyargs) + list(a.args)]
+        defaults = dict(zip(ps[len(ps) - len(a.defaults):], a.defaults))
+        actual = {}
+        args = list(call.args)
+        if recv is not None:
+            if not ps:
+                raise _NoInline("method without self")
+            actual[ps[0]] = recv
+            ps_rest = ps[1:]
+        else:
+            ps_rest = ps
+        if len(args) > len(ps_rest):
+            raise _NoInline("too many arguments")
+        for pn, av in zip(ps_rest, args):
+            actual[pn] = av
+        for k in call.keywords:
+            actual[k.arg] = k.value
+        for pn in ps:
+            if pn not in actual:
+                if pn in defaults:
+                    actual[pn] = defaults[pn]
+                else:
+                    raise _NoInline("missing argument")
+        self.count += 1
+        tag = f"__i{self.count}"
+        body = [st for st in helper.body]
+        if body and isinstance(body[0], ast.Expr) and isinstance(body[0].value, ast.Constant) and isinstance(body[0].value.value, str):
+            body = body[1:]
+        body = clone(body)
+        assigned = {x.id for st in body for x in ast.walk(st) if isinstance(x, ast.Name) and isinstance(x.ctx, (ast.Store, ast.Del))}
+        pre = []
+        mapping = {}
+        for pn, av in actual.items():
+            if pn in assigned or not _simple_expr(av):
+                nm = pn + tag
+                pre.append(ast.copy_location(ast.Assign(targets=[ast.Name(id=nm, ctx=ast.Store())], value=clone(av)), call))
+                mapping[pn] = ast.Name(id=nm, ctx=ast.Load())
+            else:
+                mapping[pn] = av
+        rename = {n: n + tag for n in assigned}
+        for pn in list(mapping):
+            if pn in assigned:
+                rename[pn] = pn + tag
+        body = _elim_returns(body, target)
+        sub = _Subst(mapping, rename)
+        body = [sub.visit(st) for st in body]
+        for st in pre + body:
+            for x in ast.walk(st):
+                if not hasattr(x, "lineno"):
+                    ast.copy_location(x, call)
+            ast.fix_missing_locations(st)
+        self.inlined.append(helper.name)
+        return self._stmts(pre + body, depth + 1) or [ast.copy_location(ast.Pass(), call)]
+
+    def _pure_expr(self, call: ast.Call, depth):
+        """expression replacing a call of a helper whose body is a single `return <expr>`"""
+        helper, recv = self._callee(call)
+        if helper is None or depth >= self.max_depth:
+            return None
+        body = [st for st in helper.body if not (isinstance(st, ast.Expr) and isinstance(st.value, ast.Constant))]
+        if len(body) != 1 or not isinstance(body[0], ast.Return) or body[0].value is None:
+            return None
+        a = helper.args
+        if a.vararg or a.kwarg or a.kwonlyargs or call.keywords or any(isinstance(x, ast.Starred) for x in call.args):
+            return None
+        ps = [x.arg for x in list(a.posonlyargs) + list(a.args)]
+        vals = ([recv] if recv is not None else []) + list(call.args)
+        if len(vals) != len(ps) or not all(_simple_expr(v) for v in vals):
+            return None
+        self.inlined.append(helper.name)
+        return ast.copy_location(_Subst(dict(zip(ps, vals)), {}).visit(clone(body[0].value)), call)
+
+    def _exprs(self, node, depth):
+        inl = self
+
+        class T(ast.NodeTransformer):
+            def visit_Call(self, c):
+                self.generic_visit(c)
+                r = inl._pure_expr(c, depth)
+                return r if r is not None else c
+
+            def visit_FunctionDef(self, n):
+                return n
+
+            visit_AsyncFunctionDef = visit_Lambda = visit_FunctionDef
+        return T().visit(node)
+
+    def _stmts(self, stmts, depth):
+        out = []
+        for st in stmts:
+            if isinstance(st, (ast.FunctionDef, ast.AsyncFunctionDef, ast.ClassDef)):
+                out.append(st)
+                continue
+            try:
+                if isinstance(st, ast.Expr) and isinstance(st.value, ast.Call):
+                    out.extend(self._expand(st.value, None, depth))
+                    continue
+                if isinstance(st, ast.Assign) and len(st.targets) == 1 and isinstance(st.targets[0], ast.Name) and isinstance(st.value, ast.Call) \
+                        and self._pure_expr(st.value, self.max_depth) is None and self._callee(st.value)[0] is not None:
+                    out.extend(self._expand(st.value, st.targets[0], depth))
+                    continue
+            except _NoInline:
+                pass
+            for fld in ("body", "orelse", "finalbody"):
+                if isinstance(getattr(st, fld, None), list) and getattr(st, fld) and isinstance(getattr(st, fld)[0], ast.stmt):
+                    setattr(st, fld, self._stmts(getattr(st, fld), depth))
+            for h in getattr(st, "handlers", []) or []:
+                h.body = self._stmts(h.body, depth)
+            # expressions of this statement (not of nested statements)
+            for fld, val in list(ast.iter_fields(st)):
+                if isinstance(val, ast.expr):
+                    setattr(st, fld, self._exprs(val, depth))
+                elif isinstance(val, list) and val and isinstance(val[0], ast.expr):
+                    setattr(st, fld, [self._exprs(v, depth) for v in val])
+            out.append(st)
+        return out
+
+    def function(self, func):
+        f = clone(func)
+        f.body = self._stmts(f.body, 0)
+        ast.fix_missing_locations(f)
+        return f
+
+
+def inlined_func(ctx, rel: str, qual: str):
+    """``real_func`` with the private helpers it calls inlined (cached per run)."""
+    cache = ctx.__dict__.setdefault("_inl_cache", {})
+    key = (rel, qual)
+    if key not in cache:
+        f = real_func(ctx, rel, qual)
+        inl = Inliner(ctx.mod(rel))
+        g = inl.function(f)
+        cache[key] = g if inl.inlined else f      # nothing to inline: keep the original nodes (identity with the call graph's sites)
+        if inl.inlined:
+            ctx.note(f"{qual}: private helpers read as if inlined: {', '.join(sorted(set(inl.inlined)))}")
+    return cache[key]
+
+
+def root_callers(mod, qual: str, _seen=None) -> Set[str]:
+    """For a private helper: the functions (outside the helper family) through which it is reached; for anything else: itself.
+    A helper that nobody calls is its own root."""
+    name = qual.split(".")[-1]
+    if not name.startswith("_") or name.startswith("__") or name in ANCHORS:
+        return {qual}
+    _seen = _seen or set()
+    if qual in _seen:
+        return set()
+    _seen.add(qual)
+    callers = set()
+    for q, f in mod.functions():
+        if q == qual:
+            continue
+        for x in ast.walk(f):
+            if isinstance(x, ast.Call) and ((isinstance(x.func, ast.Attribute) and x.func.attr == name) or (isinstance(x.func, ast.Name) and x.func.id == name)):
+                # the innermost function containing the call
+                if mod.qualname(x) == q or mod.qualname(x).startswith(q + ".<lambda>"):
+                    callers.add(q)
+    if not callers:
+        return {qual}
+    out = set()
+    for c in callers:
+        out |= root_callers(mod, c, _seen)
+    return out or {qual}
+
+
 def params(f) -> List[str]:
     a = f.args
     return [x.arg for x in list(a.posonlyargs) + list(a.args)]
@@ -512,7 +810,7 @@ class RunShape:
 
     def __init__(self, ctx):
         self.ctx = ctx
-        self.f = real_func(ctx, DEFER, "Deferred._runCallbacks")
+        self.f = inlined_func(ctx, DEFER, "Deferred._runCallbacks")
         self.g = ctx.cfg(self.f, exception_is_all=False)
         self.q = Q + "Deferred._runCallbacks"
         g = self.g
@@ -603,6 +901,10 @@ class RunShape:
                         self.chain = v.func.value.id
                         self.binds.append(n.id)
                         self.bind_index[n.id] = -1 if (not v.args or const_int(v.args[0]) == -1) else const_int(v.args[0])
+        # every (re)definition of the current-Deferred variable counts as a re-bind for the "until the next round" rules
+        peek_binds = list(self.binds)
+        self.peek_binds = peek_binds
+        self.binds = sorted(set(self.binds) | set(name_assign_nodes(g, self.cur)))
         # CONTINUE tests
         self.cont_tests: List[int] = [n.id for n in g.nodes if n.kind == "test" and g.reachable(n.id) and self._cont_fact(n.ast, True) is not None]
         # chainee: local bound from <a>[0]
@@ -670,6 +972,310 @@ def _iter_over_callbacks(it) -> Optional[str]:
     while isinstance(it, ast.Call) and dotted(it.func) in ("list", "tuple", "iter", "reversed", "sorted") and it.args:
         it = it.args[0]
     return it.value.id if attr_of(it, "callbacks") else None
+
+
+class ChainWalk:
+    """Symbolic walk of one round of the outer loop of Deferred._runCallbacks.
+
+    The *logical* chain stack L is what matters: the explicit list plus - when the current Deferred is kept in a variable of its
+    own rather than on top of the list - that variable.  Starting a round with L = (…, C) the walk follows every path (locals
+    holding True/False/None/one of the symbols are tracked, so `finished` flags, Optional `resumed` locals and while/else are read by
+    meaning) to the next round or to the function's exit and records what L has become:
+
+      kind "handover"  (the _CONTINUE marker was met, waiting Deferred W):   L must be (…, C, W)
+      kind "chained"   (a continuation was registered on a returned Deferred): L must be (…, B)   - C retired, B from below
+      kind "exhausted" (the callbacks ran out):                               L must be (…, B) or the walk ends with L empty
+    """
+
+    MUT = ("append", "pop", "insert", "remove", "clear", "extend", "reverse", "sort", "popleft", "appendleft")
+
+    def __init__(self, S: "RunShape"):
+        self.S, self.g, self.f = S, S.g, S.f
+        g = self.g
+        self.cur = S.cur
+        lists = {}
+        for n in g.nodes:
+            if n.kind == "stmt" and g.reachable(n.id):
+                for t, v in targets_values(n.ast):
+                    if isinstance(t, ast.Name) and isinstance(v, ast.List):
+                        lists.setdefault(t.id, []).append(n.id)
+        used = {x.func.value.id for x in ast.walk(self.f) if isinstance(x, ast.Call) and isinstance(x.func, ast.Attribute)
+                and isinstance(x.func.value, ast.Name) and x.func.attr in ("append", "pop")}
+        cands = sorted(set(lists) & used)
+        self.stack_var: Optional[str] = cands[0] if len(cands) == 1 else None
+        self.ambiguous = len(cands) > 1
+        self.transitions: List[Tuple[str, tuple, Optional[str], bool, List[int]]] = []   # (kind, L', cur', at_exit, path)
+        self.lifo_bad: List[int] = []
+        self.checkpoint: Optional[int] = None
+        self.mode: Optional[str] = None
+        if self.stack_var is None:
+            return
+        # outermost `while` containing the consumption
+        whiles = [w for w in ast.walk(self.f) if isinstance(w, ast.While)]
+        pop_asts = [g.node(p).ast for p in S.pops]
+        outer = [w for w in whiles if any(any(x is pa for x in ast.walk(w)) for pa in pop_asts)]
+        outer = [w for w in outer if not any(w is not o and any(x is w for x in ast.walk(o)) for o in outer)]
+        joins = [n.id for n in g.nodes if n.kind == "join" and n.note == "while" and outer and n.ast is outer[0] and g.reachable(n.id)]
+        if not joins:
+            return
+        self.checkpoint = joins[0]
+        self.inner_tests = {t.id for t in g.nodes if t.kind == "test" and any(attr_of(x, "callbacks", self.cur) for x in ast.walk(t.ast))}
+        # phase 1: from the entry to the first arrival at the checkpoint -> how is the current Deferred kept?
+        first = self._explore(g.entry, ((), frozenset(), False, False, False), stop_at_start=False)
+        modes = set()
+        for kind, phys, env, at_exit, path in first:
+            if at_exit:
+                continue
+            cur = dict(env).get(self.cur)
+            modes.add("separate" if (cur is not None and (not phys or phys[-1] != cur)) else "peek")
+        if len(modes) != 1:
+            return
+        self.mode = modes.pop()
+        start_phys = ("…", "C") if self.mode == "peek" else ("…",)
+        start_env = frozenset() if self.mode == "peek" else frozenset({(self.cur, "C")})
+        for kind, phys, env, at_exit, path in self._explore(self.checkpoint, (start_phys, start_env, False, False, False), stop_at_start=True):
+            cur = dict(env).get(self.cur)
+            L = phys if self.mode == "peek" else (phys + ((cur,) if not at_exit else ()))
+            self.transitions.append((kind, L, cur, at_exit, path))
+
+    # -- symbolic evaluation ---------------------------------------------------------------------
+    def _materialise(self, phys, fresh):
+        if phys and phys[-1] == "…":
+            return phys + (f"B{fresh}",), fresh + 1
+        return phys, fresh
+
+    def _explore(self, start, state0, stop_at_start):
+        g = self.g
+        results = []
+        seen = set()
+        prev = {}
+        dq = deque([(start, state0, 0)])
+        seen.add((start, state0))
+        prev[(start, state0)] = None
+
+        def path_to(key):
+            out = []
+            while key is not None:
+                out.append(key[0])
+                key = prev[key]
+            return list(reversed(out))
+        while dq:
+            nid, st, fresh = dq.popleft()
+            phys, envf, hand, chained, inner = st
+            env = dict(envf)
+            node = g.node(nid)
+            if node.kind == "stmt":
+                phys, env, hand, fresh = self._stmt(node, nid, phys, env, hand, fresh)
+                if nid in self.S.regs:
+                    chained = True
+            labels = None
+            if node.kind == "test":
+                if nid in getattr(self, "inner_tests", ()):
+                    inner = True
+                labels, phys, fresh = self._test(node.ast, phys, env, fresh)
+            for b, l in g.succ[nid]:
+                if l == "exc":
+                    continue
+                nphys = phys
+                if labels is not None and l in ("T", "F"):
+                    if isinstance(labels, dict):
+                        if l not in labels:
+                            continue
+                        nphys = labels[l]
+                new = (nphys, frozenset(env.items()), hand, chained, inner)
+                key = (b, new)
+                kind = "handover" if hand else ("chained" if chained else "exhausted")
+                if b == g.exit:
+                    if inner or not stop_at_start:
+                        results.append((kind, nphys, new[1], True, path_to((nid, st)) + [b]))
+                    continue
+                if b == g.raise_exit:
+                    continue
+                if b == self.checkpoint and (stop_at_start or True) and not (nid == start and not stop_at_start and False):
+                    if b == self.checkpoint and (stop_at_start or start != self.checkpoint):
+                        results.append((kind, nphys, new[1], False, path_to((nid, st)) + [b]))
+                        continue
+                if key in seen or len(seen) > 20000:
+                    continue
+                seen.add(key)
+                prev[key] = (nid, st)
+                dq.append((b, new, fresh))
+        return results
+
+    def _val(self, v, phys, env, fresh, nid):
+        """(value, phys, fresh) of an expression assigned to a tracked local"""
+        X = self.stack_var
+        if isinstance(v, ast.Constant) and (v.value is None or isinstance(v.value, bool)):
+            return v.value, phys, fresh
+        if isinstance(v, ast.Name):
+            if v.id in env:
+                return env[v.id], phys, fresh
+            if v.id == "self":
+                return "SELF", phys, fresh
+            return "?", phys, fresh
+        if isinstance(v, ast.Subscript) and is_name(v.value, X):
+            if const_int(v.slice) == -1:
+                phys, fresh = self._materialise(phys, fresh)
+                return (phys[-1] if phys else "?"), phys, fresh
+            self.lifo_bad.append(nid)
+            return "?", phys, fresh
+        if isinstance(v, ast.Call) and isinstance(v.func, ast.Attribute) and is_name(v.func.value, X) and v.func.attr == "pop":
+            if not v.args or const_int(v.args[0]) == -1:
+                phys, fresh = self._materialise(phys, fresh)
+                return (phys[-1] if phys else "?"), (phys[:-1] if phys else phys), fresh
+            self.lifo_bad.append(nid)
+            return "?", ("?",), fresh
+        return "?", phys, fresh
+
+    def _stmt(self, node, nid, phys, env, hand, fresh):
+        X = self.stack_var
+        st = node.ast
+        if nid in self.S.chainee_binds:
+            env[self.S.chainee] = "W"
+            return phys, env, True, fresh
+        if hand and isinstance(st, ast.Expr) and isinstance(st.value, ast.Call) and isinstance(st.value.func, ast.Attribute) \
+                and st.value.func.attr in ("unpause", "_runCallbacks") and is_name(st.value.func.value, self.S.chainee):
+            # the waiting Deferred is processed by a nested call right here (a matter for C02, not for the stack discipline)
+            return phys, env, False, fresh
+        if isinstance(st, ast.Expr) and isinstance(st.value, ast.Call) and isinstance(st.value.func, ast.Attribute) and is_name(st.value.func.value, X):
+            c = st.value
+            m = c.func.attr
+            if m == "append" and len(c.args) == 1:
+                v, phys, fresh = self._val(c.args[0], phys, env, fresh, nid)
+                phys = phys + (v,)
+            elif m == "pop" and (not c.args or const_int(c.args[0]) == -1):
+                phys, fresh = self._materialise(phys, fresh)
+                phys = phys[:-1] if phys else phys
+            elif m in self.MUT:
+                self.lifo_bad.append(nid)
+                phys = ("?",)
+            return phys[-8:] if len(phys) > 8 else phys, env, hand, fresh
+        for t, v in targets_values(st):
+            if isinstance(t, ast.Name):
+                if t.id == X:
+                    if isinstance(v, ast.List):
+                        vals = []
+                        for e in v.elts:
+                            x, phys, fresh = self._val(e, phys, env, fresh, nid)
+                            vals.append(x)
+                        phys = tuple(vals)
+                    else:
+                        phys = ("?",)
+                    continue
+                if v is None:
+                    env.pop(t.id, None)
+                    continue
+                val, phys, fresh = self._val(v, phys, env, fresh, nid)
+                if val == "?" and t.id != self.cur:
+                    env.pop(t.id, None)
+                else:
+                    env[t.id] = val
+            elif isinstance(t, ast.Subscript) and is_name(t.value, X):
+                self.lifo_bad.append(nid)
+                phys = ("?",)
+        if isinstance(st, ast.Delete) and any(isinstance(t, ast.Subscript) and is_name(t.value, X) for t in st.targets):
+            self.lifo_bad.append(nid)
+            phys = ("?",)
+        if fresh > 12:
+            phys = ("?",)
+        return phys, env, hand, fresh
+
+    def _test(self, e, phys, env, fresh):
+        """None (undecided: both edges, same stack) or {label: stack on that edge}"""
+        X = self.stack_var
+
+        def truth(val):
+            if val is None or val is False:
+                return False
+            if val is True or (isinstance(val, str) and val != "?"):
+                return True
+            return None
+        if isinstance(e, ast.Name):
+            if e.id == X:
+                if phys == ():
+                    return {"F": phys}, phys, fresh
+                if phys[-1] == "…":
+                    m, fresh2 = self._materialise(phys, fresh)
+                    return {"T": m, "F": phys[:-1]}, phys, fresh2
+                if phys[-1] == "?":
+                    return None, phys, fresh
+                return {"T": phys}, phys, fresh
+            if e.id in env:
+                t = truth(env[e.id])
+                if t is not None:
+                    return {"T" if t else "F": phys}, phys, fresh
+            return None, phys, fresh
+        if isinstance(e, ast.Compare) and len(e.ops) == 1 and isinstance(e.left, ast.Name) and e.left.id in env and is_const(e.comparators[0], None):
+            val = env[e.left.id]
+            if val == "?":
+                return None, phys, fresh
+            isnone = val is None
+            if isinstance(e.ops[0], (ast.Is, ast.Eq)):
+                return {"T" if isnone else "F": phys}, phys, fresh
+            if isinstance(e.ops[0], (ast.IsNot, ast.NotEq)):
+                return {"F" if isnone else "T": phys}, phys, fresh
+        if isinstance(e, ast.Call) and dotted(e.func) == "len" and len(e.args) == 1 and is_name(e.args[0], X):
+            return self._test(e.args[0], phys, env, fresh)
+        if isinstance(e, ast.Compare) and len(e.ops) == 1 and isinstance(e.left, ast.Call) and dotted(e.left.func) == "len" and e.left.args \
+                and is_name(e.left.args[0], X) and const_int(e.comparators[0]) == 0:
+            r, phys2, fresh2 = self._test(e.left.args[0], phys, env, fresh)
+            if isinstance(r, dict):
+                if isinstance(e.ops[0], (ast.Gt, ast.NotEq)):
+                    return r, phys2, fresh2
+                if isinstance(e.ops[0], (ast.Eq, ast.LtE)):
+                    return {("F" if k == "T" else "T"): v for k, v in r.items()}, phys2, fresh2
+        return None, phys, fresh
+
+    # -- verdicts --------------------------------------------------------------------------------
+    def verdicts(self):
+        """[(kind, ok, observed description, witness path)] for every recorded transition"""
+        out = []
+        for kind, L, cur, at_exit, path in self.transitions:
+            if kind == "handover":
+                ok = (not at_exit) and L == ("…", "C", "W") and (self.mode == "peek" or cur == "W")
+            else:
+                below = len(L) == 2 and L[0] == "…" and isinstance(L[1], str) and L[1].startswith("B")
+                if at_exit:
+                    ok = L == ()
+                elif self.mode == "peek":
+                    ok = L == ("…",) or below        # C removed; the loop head tests for emptiness and re-reads the top
+                else:
+                    ok = below and cur == L[1]
+            obs = ("the walk ends with " if at_exit else "the next round starts with ") + "the logical chain stack " + \
+                "(" + ", ".join({"…": "…below", "C": "current", "W": "waiting Deferred"}.get(x, str(x)) for x in L) + ")"
+            out.append((kind, ok, obs, path))
+        return out
+
+
+def value_aliases(g, is_read, changers) -> Set[str]:
+    """Locals that hold the value of a tracked location (``t = W[0]``) and are still current wherever they are tested: no node that
+    may change the location (``changers``) lies on a path from the copy to a test of the local."""
+    cands: Dict[str, List[int]] = {}
+    for n in g.nodes:
+        if n.kind == "stmt" and g.reachable(n.id):
+            for t, v in targets_values(n.ast):
+                if isinstance(t, ast.Name) and v is not None and is_read(v):
+                    cands.setdefault(t.id, []).append(n.id)
+    out = set()
+    for name, defs in cands.items():
+        if set(name_assign_nodes(g, name)) != set(defs):
+            continue
+        tests = [t.id for t in g.nodes if t.kind == "test" and g.reachable(t.id) and is_name(t.ast, name)]
+        stale = any(g.path(defs, [c], edge_ok=no_exc, strict=True) is not None and g.path([c], tests, avoid=set(defs), edge_ok=no_exc, strict=True) is not None
+                    for c in changers)
+        if tests and not stale:
+            out.add(name)
+    return out
+
+
+def nodes_of(g, node) -> List[int]:
+    """CFG nodes holding this AST node; when the function was rebuilt with helpers inlined (new node objects), the nodes whose
+    text contains the node's text."""
+    ids = g.ids_of(node)
+    if ids:
+        return ids
+    text = src(node)
+    return [n.id for n in g.nodes if n.ast is not None and n.kind in ("stmt", "test") and g.reachable(n.id) and text in src(n.ast)]
 
 
 def is_const_str(n, s: str) -> bool:
@@ -958,7 +1564,7 @@ class ICModel:
 
     def __init__(self, ctx):
         self.ctx = ctx
-        self.f = real_func(ctx, DEFER, "_inlineCallbacks")
+        self.f = inlined_func(ctx, DEFER, "_inlineCallbacks")
         self.q = Q + "_inlineCallbacks"
         self.g = g = ctx.cfg(self.f, exception_is_all=False)
         ps = params(self.f)
@@ -1003,24 +1609,37 @@ class ICModel:
                 if isinstance(callee, ast.Name) and isinstance(mod.find(callee.id), (ast.FunctionDef, ast.AsyncFunctionDef)) and extra is not None:
                     ks = [i for i, a in enumerate(extra) if self.W and is_name(a, self.W)]
                     if ks:
-                        self.helpers.setdefault(callee.id, (mod.find(callee.id), ks[0] + 1))
+                        self.helpers.setdefault(callee.id, (inlined_func(ctx, DEFER, callee.id), ks[0] + 1))
         self.helper_name: Optional[str] = sorted(self.helpers)[0] if self.helpers else None
         self.helper = self.helpers[self.helper_name][0] if self.helper_name else None
         W = self.W
+        # locals holding <status>.deferred
+        self.deferred_aliases: Dict[str, List[int]] = {}
+        for n in g.nodes:
+            if n.kind == "stmt" and g.reachable(n.id):
+                for t, v in targets_values(n.ast):
+                    if isinstance(t, ast.Name) and v is not None and attr_of(v, "deferred", self.p_status):
+                        self.deferred_aliases.setdefault(t.id, []).append(n.id)
         # fire sites: <status>.deferred.callback/errback(...)
         self.fires: List[int] = call_nodes(g, self.is_fire)
         # resume sites: the generator is advanced
         self.resumes: List[int] = g.find(self._mentions_resume, kinds=("stmt", "test"))
         ctx.need(self.resumes, "generator resumption (gen.send / throwExceptionIntoGenerator) in _inlineCallbacks")
-        self.cell_tests: List[int] = [n.id for n in g.nodes if n.kind == "test" and g.reachable(n.id) and W and sub0(n.ast, W, 0)]
+        changers = list(self.regs) + ([n.id for n in g.nodes if n.kind == "stmt" and g.reachable(n.id) and self.cell_store(n.ast) is not None] if W else [])
+        self.cell_aliases: Set[str] = value_aliases(g, lambda v: bool(W) and sub0(v, W, 0), changers) if W else set()
+        self.cell_tests: List[int] = [n.id for n in g.nodes if n.kind == "test" and g.reachable(n.id) and W and
+                                      (sub0(n.ast, W, 0) or (isinstance(n.ast, ast.Name) and n.ast.id in self.cell_aliases))]
         self.states: Dict[int, Set[Tuple]] = {}
         self._run()
 
     # -- recognisers ----------------------------------------------------------------------------
     def is_fire(self, c: ast.Call) -> bool:
         f = c.func
-        return (isinstance(f, ast.Attribute) and f.attr in ("callback", "errback") and isinstance(f.value, ast.Attribute)
-                and f.value.attr == "deferred" and is_name(f.value.value, self.p_status))
+        if not (isinstance(f, ast.Attribute) and f.attr in ("callback", "errback")):
+            return False
+        if isinstance(f.value, ast.Attribute) and f.value.attr == "deferred" and is_name(f.value.value, self.p_status):
+            return True
+        return isinstance(f.value, ast.Name) and f.value.id in self.deferred_aliases     # d = status.deferred ... d.callback(...)
 
     def _mentions_resume(self, x) -> bool:
         if isinstance(x, ast.Attribute) and x.attr in ("send", "throw") and is_name(x.value, self.p_gen):
